@@ -173,7 +173,7 @@ func main() {
 		_ = next
 		w.Close()
 	case "run":
-		st := vh.NewStats("entries: each uint64 field drawn from {0, boundary table incl. 2^49-1/2^49/2^64-1, random>>k, small, random}, type from int32 incl. negatives, cmd lengths around 0/1/127/128/16383/16384; decode stream: valid encodings mutated by flip/truncate/extend/splice/random. non-trivial = at least one field in fixed 8-byte form AND one in varint form (entries) or a mutated input that differs from a canonical encoding (decode); distinct by full case text")
+		st := vh.NewStats("entries (colfer): each uint64 field from {0, boundary table incl. 2^49-1/2^49/2^64-1, random>>k, small, random}, type over int32 incl. negatives, cmd lengths around 0/1/127/128/16383/16384, plus mutated encodings (flip/truncate/extend/splice/random); frames: header encode/decode, writeMessage with chunk sizes 1..2MB, for 8 sample frames EVERY single-bit flip and EVERY truncation point plus 250 bursts of 2..32 bits and forged headers; 13 proto types + Update record: boundary-biased values, nil vs empty, maps of 0..40 entries, the implementation's own bytes and (map-free types) mutated encodings through both decoders, Update worst-case heads and truncations; payload encoding with and without snappy. non-trivial = entry with both fixed and varint fields / any decode or frame mutation case / valid header or written frame / proto value longer than 24 bytes / update with entries or snapshot / snappy payload; distinct by full case text")
 		obs := vh.Create(a.Out + "/impl.obs")
 		for _, line := range vh.ReadLines(a.Cases) {
 			f := strings.Fields(line)
